@@ -361,8 +361,8 @@ def raiseSites6 : List Site := [
   ⟨922, 923, 110, 2, [156], true, true, [154, 148, 152, 151, 44], false⟩,  -- 340 duckdb_transpiler/Config/config.py:110
   ⟨924, 925, 732, 2, [696], true, true, [164], false⟩,  -- 341 duckdb_transpiler/Transpiler/__init__.py:732
   ⟨924, 926, 1618, 3, [444], true, true, [164, 44], false⟩,  -- 342 duckdb_transpiler/Transpiler/__init__.py:1618
-  ⟨924, 927, 3653, 3, [180], true, true, [108, 80, 164], false⟩,  -- 343 duckdb_transpiler/Transpiler/__init__.py:3653
-  ⟨924, 928, 3842, 3, [616], true, true, [], false⟩,  -- 344 duckdb_transpiler/Transpiler/__init__.py:3842
+  ⟨924, 927, 3660, 3, [180], true, true, [108, 80, 164], false⟩,  -- 343 duckdb_transpiler/Transpiler/__init__.py:3660
+  ⟨924, 928, 3849, 3, [616], true, true, [], false⟩,  -- 344 duckdb_transpiler/Transpiler/__init__.py:3849
   ⟨929, 930, 140, 3, [472], true, true, [471, 164, 469], false⟩,  -- 345 duckdb_transpiler/Transpiler/operators.py:140
   ⟨931, 932, 62, 2, [645], true, true, [643, 44], false⟩,  -- 346 duckdb_transpiler/io/_execution.py:62
   ⟨931, 933, 79, 2, [704], true, true, [164], false⟩,  -- 347 duckdb_transpiler/io/_execution.py:79
